@@ -3697,8 +3697,8 @@ def sptenrand(
 
     shape = parse_shape(shape)
     if isinstance(density, float):
-        # TODO this should be an int
-        valid_nonzeros = float(prod(shape) * density)
+        # an integer count: a float below one would be read as a density again
+        valid_nonzeros = int(np.floor(prod(shape) * density))
     elif isinstance(nonzeros, (int, float)):
         valid_nonzeros = nonzeros
     else:  # pragma: no cover
